@@ -62,6 +62,11 @@ func (f *fakeSock) snapshot() ([]byte, int) {
 	defer f.mu.Unlock()
 	return append([]byte(nil), f.written.Bytes()...), f.writes
 }
+func (f *fakeSock) nwrites() int {
+	f.mu.Lock()
+	defer f.mu.Unlock()
+	return f.writes
+}
 func (f *fakeSock) Close() error                     { return nil }
 func (f *fakeSock) LocalAddr() net.Addr              { return nil }
 func (f *fakeSock) RemoteAddr() net.Addr             { return nil }
@@ -216,20 +221,20 @@ func runWrite(c WriteCase) vkit.Result {
 	conn := listener.VerifNewConn(fs, c.Rate)
 	defer conn.Close()
 	var want []byte
-	queued, direct, timer := 0, 0, 0
+	queued, direct, timer, checked := 0, 0, 0, 0
 	for i, op := range c.Ops {
 		switch {
 		case op.W > 0:
 			p := bytes.Repeat([]byte{byte(i)}, op.W)
 			p[0] = byte(i >> 8)
-			_, before := fs.snapshot()
+			before := fs.nwrites()
 			n, err := conn.Write(p)
 			if err != nil {
 				return vkit.Failf("write %d: %v", i, err)
 			}
 			_ = n
 			want = append(want, p...)
-			if _, after := fs.snapshot(); after == before {
+			if after := fs.nwrites(); after == before {
 				queued++
 			} else {
 				direct++
@@ -247,7 +252,14 @@ func runWrite(c WriteCase) vkit.Result {
 			}
 		}
 		// whatever has reached the socket so far is a prefix of what was written
-		if got, _ := fs.snapshot(); !bytes.HasPrefix(want, got) {
+		fs.mu.Lock()
+		got := fs.written.Bytes()
+		ok := len(got) <= len(want) && bytes.Equal(got[checked:], want[checked:len(got)])
+		if ok {
+			checked = len(got)
+		}
+		fs.mu.Unlock()
+		if !ok {
 			return vkit.Failf("after step %d the socket has received %d bytes that are not a prefix of the %d bytes written (queued %d, direct %d)", i, len(got), len(want), queued, direct)
 		}
 	}
